@@ -153,7 +153,7 @@ class Spectrum:
         valueunit = self.valueunit
 
         if isinstance(other, (int, float, np.number, np.bool_, list, tuple, np.ndarray)):
-            wave = self.wave
+            wave = self.wave.copy()
             try:
                 value = ufunc(self.value, other)
             except ValueError:
